@@ -3,6 +3,7 @@ package props
 import (
 	"fmt"
 	"os"
+	"time"
 	"path/filepath"
 	"sort"
 
@@ -39,6 +40,7 @@ type specCtx struct {
 func (sc *specCtx) conflictFree() bool { return sc.LA != nil && sc.CI.Cells == 0 }
 
 type feedInfo struct {
+	PanicAt  int // the lexer fails when asked for this token (-1: never)
 	Kind     string
 	Toks     []ref.Tok // grammar tokens (Term >= 0) and raw codes (Term == -2)
 	Sentence bool
@@ -46,7 +48,7 @@ type feedInfo struct {
 }
 
 func (f *feedInfo) feed() engbrt.Feed {
-	fd := engbrt.Feed{PanicAt: -1}
+	fd := engbrt.Feed{PanicAt: f.PanicAt}
 	for _, t := range f.Toks {
 		fd.Toks = append(fd.Toks, engbrt.Tok{Term: t.Term, V: t.V})
 	}
@@ -106,7 +108,7 @@ func makeFeeds(g *ref.Grammar, r *rng.R, sz feedSizes) []feedInfo {
 	seen := map[string]bool{}
 	val := func() int { return r.Range(1, 999) }
 	add := func(kind string, toks []ref.Tok) {
-		f := feedInfo{Kind: kind, Toks: toks}
+		f := feedInfo{Kind: kind, Toks: toks, PanicAt: -1}
 		k := f.String()
 		if seen[k] {
 			return
@@ -253,6 +255,7 @@ var pbCounter int
 
 // prepareBatch generates every (spec, variant) under the schedule, compiles the Go ones into one driver.
 func prepareBatch(ctx *Ctx, res *Result, in *Input, variants []wl.Variant, epi int, sz feedSizes) (*parserBatch, bool) {
+	t0 := time.Now()
 	pb := &parserBatch{TSFiles: map[string]string{}}
 	sched := enga.Canonical()
 	if len(in.Scheds) > 0 {
@@ -312,6 +315,9 @@ func prepareBatch(ctx *Ctx, res *Result, in *Input, variants []wl.Variant, epi i
 		}
 		pb.Specs = append(pb.Specs, sc)
 	}
+	res.Count("ms_generate", int(time.Since(t0).Milliseconds()))
+	t1 := time.Now()
+	defer func() { res.Count("ms_go_build", int(time.Since(t1).Milliseconds())) }()
 	if len(srcs) > 0 {
 		b, err := engb.Build(ctx.RepoCopy, srcs)
 		if err != nil {
@@ -338,6 +344,11 @@ func prepareBatch(ctx *Ctx, res *Result, in *Input, variants []wl.Variant, epi i
 
 // runParses runs every feed of every spec through every usable unit; returns results[name][feedIndex].
 func (pb *parserBatch) runParses(ctx *Ctx, res *Result, trace bool) (map[string][]engbrt.ParseResult, map[string]*engbrt.JobResult, bool) {
+	return pb.runParsesB(ctx, res, trace, 0)
+}
+
+// runParsesB: budget > 0 overrides the default step budget (10000 + 200 per token).
+func (pb *parserBatch) runParsesB(ctx *Ctx, res *Result, trace bool, budget int) (map[string][]engbrt.ParseResult, map[string]*engbrt.JobResult, bool) {
 	var goJobs, tsJobs []engbrt.Job
 	for _, sc := range pb.Specs {
 		var feeds []engbrt.Feed
@@ -357,7 +368,7 @@ func (pb *parserBatch) runParses(ctx *Ctx, res *Result, trace bool) (map[string]
 			if u.GenErr != "" || u.CompErr != "" {
 				continue
 			}
-			j := engbrt.Job{Parser: u.Name, Kind: "parses", Feeds: feeds, Trace: trace && u.Variant.Lang == "go"}
+			j := engbrt.Job{Parser: u.Name, Kind: "parses", Feeds: feeds, Trace: trace && u.Variant.Lang == "go", Budget: budget}
 			if u.Variant.Lang == "go" {
 				goJobs = append(goJobs, j)
 			} else {
@@ -368,7 +379,9 @@ func (pb *parserBatch) runParses(ctx *Ctx, res *Result, trace bool) (map[string]
 	out := map[string][]engbrt.ParseResult{}
 	meta := map[string]*engbrt.JobResult{}
 	if pb.Go != nil && len(goJobs) > 0 {
+		t0 := time.Now()
 		rs, err := pb.Go.Run(goJobs)
+		res.Count("ms_go_parses", int(time.Since(t0).Milliseconds()))
 		if err != nil {
 			res.Harness = "engine B run: " + err.Error()
 			return nil, nil, false
@@ -380,7 +393,9 @@ func (pb *parserBatch) runParses(ctx *Ctx, res *Result, trace bool) (map[string]
 		}
 	}
 	if len(tsJobs) > 0 {
+		t0 := time.Now()
 		rs, err := engb.RunTS(verifDir(ctx), ctx.Scratch, pb.TSFiles, tsJobs)
+		res.Count("ms_node_parses", int(time.Since(t0).Milliseconds()))
 		if err != nil {
 			res.Harness = "engine B (node): " + err.Error()
 			return nil, nil, false
